@@ -13,6 +13,17 @@ NOTE_R = ("Mode R = IEEE specials over exact reals (no rounding/overflow/signed 
           "with instance axioms. Trusted: z3, the shim's model of NumPy element semantics, the oracles in /verif/spec and the harness. ")
 
 CHECKS = {
+    "C01": dict(
+        text="Bounded symbolic verification: engines built by the real constructors/Rule.create from generated skeletons (1-3 inputs, "
+             "1-2 outputs, 1-2 blocks, antecedent trees, output variables in later antecedents) are processed by the real Engine.process "
+             "with every operator made abstract through the public extension points (uninterpreted non-commutative conjunction, "
+             "disjunction, implication, aggregation; abstract terms; abstract defuzzifier probing the aggregated set) and all inputs, "
+             "weights and ranges symbolic; output values, fuzzy outputs and rule degrees must equal a reference interpreter of the "
+             "statement evaluated on the generating skeleton (SMT query decided by congruence), with each rule/block/variable disabled in "
+             "turn. Registered terms/norms/defuzzifiers are then checked against their documented formulas on fixed skeletons.",
+        note=NOTE_R + "Skeletons from a bounded seeded family; General activation only (others: C08); hedged non-last conclusions excluded "
+             "(recorded C07 finding).",
+        ref="DESIGN.md §2 C01"),
     "C10": dict(
         text="Bounded symbolic verification: fuzzy outputs are enumerated skeletons (0-4 activations over up to 3 terms with repetitions, "
              "term kinds Constant/Linear/Function/six monotonic/Triangle) with every degree, constant, coefficient, input and term "
